@@ -177,7 +177,7 @@ class C14(Check):
         return st.tuples(base, layout_config()).map(lambda t: dict(t[0], rule_configs=t[1]))
 
     def examples(self, tier):
-        return 65 if tier == "quick" else 1500
+        return 42 if tier == "quick" else 1500
 
     def budget_s(self, tier):
         return 400.0 if tier == "quick" else 1700.0
